@@ -1122,4 +1122,35 @@ theorem fileFromBytes_ins_many {x : Bytes} {revs : List Event} (hp : parseRaw x 
     · rw [(fileOfEvents_pre_header_nl pre hd t post).1]; exact he
     · rw [(fileOfEvents_pre_header_nl pre hd t post).2]; exact hh
 
+/-- along such insertions every section keeps its header, its entries and its comments -/
+theorem ins_many_sections {E E' : List Event} (h : InsAfterHeaders render E E') :
+    (groupSections E').2.map (fun s => (s.header, bodyEntries s.header s.body none [], s.body.filter isComment)) =
+      (groupSections E).2.map (fun s => (s.header, bodyEntries s.header s.body none [], s.body.filter isComment)) := by
+  induction h with
+  | refl => rfl
+  | @step pre post hd t _ _ _ ih =>
+    rw [(groupSections_pre_header_nl2 hd t post pre).2]; exact ih
+
+/-- the written text of a loaded file whose output is its events with newlines inserted after some
+headers parses to exactly the writer's event list -/
+theorem fileFromBytes_write_ins_many {bs : Bytes} {f : File} (h : fileFromBytes bs = some f)
+    (hb : bomLen bs = 0) (hc : ∀ revs, parseRaw bs = some revs → ∀ e ∈ revs, e.canon = true)
+    (hins : InsAfterHeaders render f.events f.aug) :
+    fileFromBytes f.write = some (fileOfEvents f.aug) := by
+  unfold fileFromBytes parseEvents at h
+  simp only [Option.map_eq_some_iff] at h
+  obtain ⟨evs, ⟨revs, hr, rfl⟩, rfl⟩ := h
+  have hcan := hc revs hr
+  have hx : bs = renderRaw revs := by
+    have := parseRaw_ok hr
+    rw [hb] at this
+    simpa using this.symm
+  rw [fileOfEvents_events] at hins
+  obtain ⟨R', hR', hR'can, hR'ins, _, _⟩ := fileFromBytes_ins_many hr hx hcan hins
+  have hparse := parseRaw_ins_many hr hx hR'ins
+  have hw : (fileOfEvents (revs.map Event.toReal)).write = renderRaw R' := by
+    rw [File.write_eq, ← hR', render_toReal_of_canon R' hR'can]
+  unfold fileFromBytes parseEvents
+  rw [hw, hparse, ← hR']; rfl
+
 end GixModel.C26
